@@ -119,7 +119,7 @@ theorem drain_forward (s : Bool) : ∀ (n : Nat) (b : Bytes), b.length = n →
 
 /-- every packet handed out resolves to a value whose accepted spelling is exactly its bytes -/
 def EvOk (s : Bool) : Ev → Prop
-  | .pkt p => ∃ v, toRespVec p.data p.resp = some v ∧ Accepts s v p.data
+  | .pkt p => ∃ v, toRespVec p.data p.resp = some v ∧ Accepts s v p.data ∧ NestOk 0 v
   | _ => True
 
 theorem drain_events_ok (s : Bool) : ∀ (n : Nat) (b : Bytes), b.length = n → ∀ e ∈ (drain s b).1, EvOk s e := by
@@ -138,6 +138,26 @@ theorem drain_events_ok (s : Bool) : ∀ (n : Nat) (b : Bytes), b.length = n →
       cases he with
       | inl h => subst h; exact (decodeIndexed_sound hd).2
       | inr h => exact ih rest.length (by omega) rest rfl e h
+
+/-- a panic event can only come from a decode call that panics -/
+theorem drain_no_panic (s : Bool) (hnp : ∀ b, decodeIndexed s b ≠ .panic) : ∀ (n : Nat) (b : Bytes), b.length = n →
+    ∀ e ∈ (drain s b).1, ∀ (h : e = Ev.panic), False := by
+  intro n
+  induction n using Nat.strongRecOn with
+  | _ n ih =>
+    intro b hn e he heq
+    subst heq
+    cases hd : decodeIndexed s b with
+    | none => rw [drain_none hd] at he; simp at he
+    | invalid => rw [drain_invalid hd] at he; simp at he
+    | panic => exact hnp b hd
+    | item p rest =>
+      have hlt := decodeIndexed_item_lt hd
+      rw [drain_item hd] at he
+      simp only [List.mem_cons] at he
+      cases he with
+      | inl h => cases h
+      | inr h => exact ih rest.length (by omega) rest rfl _ h rfl
 
 /-! ## `run`: reads in any chunking -/
 
